@@ -1032,10 +1032,13 @@ def c10(ctx):
 @check("C11")
 def c11(ctx):
     cov = store_check(ctx, ["poll"], ["poll", "tick"], 150, 2500,
-                      "Store.tla models a poll as snapshot / one request at a time / apply-or-abort / flush, with overlapping Refresh callers joining "
+                      "Store.tla models a poll as snapshot / one request per secret (one at a time or several at once) / apply-or-abort / flush, with overlapping Refresh callers joining "
                       "the round in flight. TLC checks PollConverges (every known secret ends at a version that was active during the poll), Coalesce "
                       "and that an aborted poll changes nothing, over all interleavings of activations (forwards and backwards), failures and two "
-                      "refresh callers; random histories of the real store (scripted service, gated requests) are validated line by line")
+                      "refresh callers; random histories of the real store (scripted service, gated requests) are validated line by line. TLC-simulated "
+                      "behaviours in which lookups of one name race each other and a poll (the `race` configuration) are forced on the real store: "
+                      "whatever a late lookup answer does, a poll that completes leaves every known secret at a version active during that poll",
+                      script_only_fams=("race",))
     cad = store_special(ctx, "TestCadence")
     cov["cadence"] = cad
     return "model_checking", cov, ["freshness is judged by version number, as the protocol does"]
